@@ -51,7 +51,13 @@ func main() {
 			if i%3 == 2 {
 				stream = "malformed"
 			}
-			line, class := lexgen.Line(r, stream)
+			var line, class string
+			if i%8 == 7 { // own streams, see extra.go
+				stream = "extra"
+				line, class = extraLine(r)
+			} else {
+				line, class = lexgen.Line(r, stream)
+			}
 			runOne(input{NS: hlib.Pick(r, namespaces), Line: lexgen.ToInts(line), Stream: stream, Class: class})
 		}
 	case "run":
